@@ -38,7 +38,7 @@ func init() {
 	register(&Check{
 		ID: "C11", Level: "exploration", Configs: c11Configs(),
 		Run:         runC11,
-		QuickRuns:   120_000,
+		QuickRuns:   240_000,
 		ThoroughSec: 480,
 		Rule: "config clean: a real VP8Payloader (+-PictureID) streams 1-60 frames (1 byte..5*MTU) at an MTU above the descriptor size to a long-lived real VP8Packet over a FIFO wire; " +
 			"config wrap: 33 000 one-byte frames through one payloader (picture id 127->128 and 32767->0); config foreign: an independent RFC 7741 descriptor writer over all " +
